@@ -6,11 +6,13 @@ import GoDcp.Driver.Keys
 import GoDcp.Driver.AsyncOp
 import GoDcp.Driver.Config
 import GoDcp.Driver.Life
+import GoDcp.Driver.Wire
 import GoDcp.Driver.Membership
+import GoDcp.Driver.MinSeqNo
 /-! registry of all stateless handlers (one list per slice) -/
 namespace GoDcp.Driver
 
 def allHandlers : List (String × (List String → Option String → Option Out)) :=
-  pureHandlers ++ versionHandlers ++ rollbackHandlers ++ healthHandlers ++ keysHandlers ++ asyncOpHandlers ++ configHandlers ++ lifeHandlers ++ membershipHandlers
+  pureHandlers ++ versionHandlers ++ rollbackHandlers ++ healthHandlers ++ keysHandlers ++ asyncOpHandlers ++ configHandlers ++ lifeHandlers ++ wireHandlers ++ membershipHandlers ++ minSeqNoHandlers
 
 end GoDcp.Driver
